@@ -223,7 +223,9 @@ def scen_tone(env, cfg):
 def scen_symmetry(env, cfg):
     D, T = env.lib.devices, env.lib.typing
     kind, n, ratio = cfg['kind'], cfg['order'], cfg['ratio']
-    L, c = 65, 32
+    cut = ratio if kind == 'LPF' else ratio / 2
+    L = max(65, int(8 / cut) | 1)          # "away from the record edges": the record spans several impulse-response lengths
+    c = L // 2
     fs = _gv(env)
     BWc = env.num(ratio * fs)
     h = env.reals('h', 4, 0, 3)
